@@ -977,6 +977,11 @@ impl Log {
 		}
 		if let Some((id, _record_id, file)) = self.replay_queue.write().pop_front() {
 			log::debug!(target: "parity-db", "Replay: Activated log reader {}", id);
+			// The file may hold records that were written but not synced when the process
+			// died. They are about to be applied to the tables: make them durable first.
+			if self.sync {
+				try_io!(file.sync_data());
+			}
 			#[cfg(parity_db_verif)]
 			crate::verif::emit("ReplayFile", &[id as u64, _record_id]);
 			*reading = Some(Reading { id, file: std::io::BufReader::new(file) });
